@@ -1278,6 +1278,61 @@ def witness_cases():
     ]
 
 
+MODFORM_SRC = ('class Alpha(object):\n    """\n    Alpha doc\n\n    :cvar a: the a\n    """\n\n    a: int = 5\n\n\n'
+               'class Beta(object):\n    """\n    Beta doc\n\n    :cvar b: the b\n    """\n\n    b: str = "x"\n\n\n'
+               'class Gamma(object):\n    """\n    Gamma doc\n\n    :cvar c: the c\n    """\n\n    c: float = 0.5\n\n\n')
+MODFORMS = {"dict": "{c.__name__: c for c in (%s)}", "list-of-pairs": "[(c.__name__, c) for c in (%s)]", "tuple-of-pairs": "tuple((c.__name__, c) for c in (%s))",
+            "generator": "((c.__name__, c) for c in (%s))", "zip": "zip([c.__name__ for c in (%s)], (%s))", "items-iterator": "iter({c.__name__: c for c in (%s)}.items())"}
+
+
+def run_modform(case):
+    """`--input-mapping <module>.<attribute>`: the mapping is an object of the named module (a dict, a list of pairs, or any iterable of pairs)"""
+    form, emit, names = case
+    d = tempfile.mkdtemp(prefix="c19mod_", dir="/tmp")
+    try:
+        expr = MODFORMS[form].replace("%s", ", ".join(names) + ("," if len(names) == 1 else ""))
+        with open(os.path.join(d, "inp_mod_c19.py"), "wt") as f:
+            f.write(MODFORM_SRC + "input_map = " + expr + "\n")
+        out = os.path.join(d, "out.py")
+        env = dict(os.environ, PYTHONPATH=os.pathsep.join([str(core.REPO), d]))
+        try:
+            p = subprocess.run([core.PY, "-m", "cdd", "gen", "--name-tpl", "{name}Config", "--input-mapping", "inp_mod_c19.input_map", "--emit", emit, "-o", out],
+                               stdout=subprocess.PIPE, stderr=subprocess.PIPE, text=True, env=env, cwd=d, timeout=120)
+        except subprocess.TimeoutExpired:
+            return {"timeout": True}
+        text = open(out).read() if os.path.exists(out) else None
+        return {"rc": p.returncode, "out": text, "err": p.stderr[-300:]}
+    finally:
+        shutil.rmtree(d, ignore_errors=True)
+
+
+def modform_stream(chk: core.Check):
+    """fixed corner (every seed): the module-attribute form of --input-mapping with every kind of iterable the documentation allows; one symbol per entry"""
+    cases = [(form, emit, names) for form in MODFORMS for emit in ("class", "argparse") for names in (["Alpha", "Beta", "Gamma"], ["Beta", "Alpha"], ["Gamma"])]
+    for c, r in zip(cases, core.pmap(run_modform, cases, chunksize=2)):
+        form, emit, names = c
+        chk.count(("modform", form, emit, tuple(names)), True)
+        want = [n + "Config" for n in names]
+        rp = {"fn": "modform", "form": form, "emit": emit, "names": names}
+        if r.get("timeout"):
+            chk.failure({"kind": "timeout", "input": "module-attribute", "form": form}, "gen did not finish", rp)
+            continue
+        if r["rc"] != 0 or r["out"] is None:
+            chk.failure({"kind": "crash", "input": "module-attribute", "form": form, "emit": emit}, "gen --input-mapping module.attr (%s) exited %s: %s" % (form, r["rc"], r["err"][-160:]), rp)
+            continue
+        try:
+            mod = ast.parse(r["out"])
+        except SyntaxError as e:
+            chk.failure({"kind": "invalid-python", "input": "module-attribute", "form": form, "emit": emit}, "output does not compile: %s" % e, rp)
+            continue
+        defined = [n.name for n in mod.body if isinstance(n, (ast.ClassDef, ast.FunctionDef))]
+        all_ = next((ast.literal_eval(n.value) for n in mod.body if isinstance(n, ast.Assign) and any(isinstance(t, ast.Name) and t.id == "__all__" for t in n.targets)), None)
+        if defined != want or all_ != want:
+            chk.failure({"kind": "symbol-count", "input": "module-attribute", "form": form, "emit": emit},
+                        "input mapping (%s) has entries %s; the module defines %s and __all__ = %s" % (form, names, defined, all_), rp)
+    chk.coverage["module_attribute_input_mappings"] = len(cases)
+
+
 def cli_matrix(chk: core.Check):
     r = chk.rng
     n = 320 if chk.quick else 4000
@@ -1416,6 +1471,7 @@ def run(chk: core.Check) -> int:
     ]
     component_ops(chk)
     cli_matrix(chk)
+    modform_stream(chk)
     for it in chk.kf.items:
         if it["seen"] == 0:
             chk.notes.append("finding %s not observed in this run (its witness no longer fails: stale?)" % it["id"])
@@ -1437,6 +1493,15 @@ def replay(path: str) -> int:
     _cdd()
     d = json.loads(Path(path).read_text())
     rp = d.get("replay") or {}
+    if rp.get("fn") == "modform":
+        r = run_modform((rp["form"], rp["emit"], rp["names"]))
+        print("replay: gen --input-mapping inp_mod_c19.input_map (%s of %s) --emit %s -> rc=%s\n%s" % (rp["form"], rp["names"], rp["emit"], r.get("rc"), r.get("out")))
+        try:
+            mod = ast.parse(r.get("out") or "(")
+            ok = [n.name for n in mod.body if isinstance(n, (ast.ClassDef, ast.FunctionDef))] == [n + "Config" for n in rp["names"]]
+        except SyntaxError:
+            ok = False
+        return 0 if ok and r.get("rc") == 0 else 1
     if "case" not in rp:
         print("replay: no CLI case in %s (a broken proof obligation / component op: see `no_longer_checks`)" % path)
         return 1
